@@ -217,6 +217,8 @@ type Interpreter struct {
 	hooks *hooks // symbol hooks
 
 	debugger *Debugger
+
+	verif verifState // verification hooks, empty unless built with the verif tag
 }
 
 const (
